@@ -5,10 +5,10 @@ namespace NeoFS.NetmapRing
 open NeoFS
 
 /-- the property's quantifier, per operation: ticks are consecutive (a stale epoch number is allowed — it
-is refused), epochs stay below 2³² (the width of `fourBytesBE`), counts fit the one-byte ring index -/
+is refused) and epochs stay below 2³² (the width of `fourBytesBE`). `updateSnapshotCount` may be called with
+ANY integer: the method's own guards refuse what does not fit the one-byte ring index. -/
 def wfOp (s : State) : Op → Bool
   | .newEpoch e => decide (e ≤ (s.cur : Int) + 1) && decide (s.cur + 1 < 2 ^ 32)
-  | .updateSnapshotCount k => decide (k ≤ 256)
   | _ => true
 
 def wfHist : State → List (Env × Op) → Bool
@@ -76,13 +76,12 @@ theorem inv_step (s : State) (p : Spec) (env : Env) (op : Op) (h : RingInv s p) 
       subst he
       exact inv_tick s s' p env h hw.2 hr
   | updateSnapshotCount k =>
-    simp only [wfOp, decide_eq_true_eq] at hw
     simp only [invoke, step, specStep]
     cases hr : updateSnapshotCount s env k with
     | none => simpa using h
     | some s' =>
       simp only [Option.isSome_some, if_true]
-      exact inv_resize s s' p env k h hw hr
+      exact inv_resize s s' p env k h hr
   | addPeerIR i =>
     obtain ⟨a, b, e⟩ := invoke_cand_addPeerIR s env i
     simp only [specStep]; rw [e]; exact inv_cands s p h a b
@@ -133,7 +132,7 @@ def alpha : Env := ⟨true, true⟩
 def nobody : Env := ⟨false, false⟩
 
 /-- candidates change before every tick; shrink 10→3 at epoch 13, refused calls in between, grow 3→5,
-a grow that must move a never-filled slot (FAULT), ticks after each change -/
+a grow that must move a never-filled slot (FAULT), counts 257 and 2⁶³ (refused), ticks after each change -/
 def exHist : List (Env × Op) :=
   [(alpha, .addPeerIR 1), (alpha, .addNode 1), (alpha, .newEpoch 1),
    (alpha, .addPeerIR 2), (alpha, .addNode 2), (alpha, .newEpoch 2),
@@ -150,6 +149,7 @@ def exHist : List (Env × Op) :=
    (alpha, .addPeerIR 0), (alpha, .addNode 0), (alpha, .newEpoch 13),
    (alpha, .updateSnapshotCount 3),
    (nobody, .newEpoch 14), (alpha, .newEpoch 13), (alpha, .updateSnapshotCount 0), (alpha, .updateSnapshotCount 3),
+   (alpha, .updateSnapshotCount 257), (alpha, .updateSnapshotCount 9223372036854775808),
    (alpha, .deleteNode 4), (alpha, .newEpoch 14),
    (alpha, .updateSnapshotCount 5),
    (alpha, .addPeerIR 1), (alpha, .addNode 1), (alpha, .newEpoch 15),
